@@ -306,6 +306,10 @@ APPEND(skip_lane_copy_,i):
         xor     job_rax, job_rax
 
 %%return_uia2:
+%ifdef SAFE_DATA
+        ;; LFSR / FSM / keystream values are left in the XMM registers
+        clear_scratch_xmms_sse_asm
+%endif
         SNOW3G_FUNC_END
 
 %endmacro
